@@ -195,6 +195,17 @@ def gen_unreadable(seed):
     return {"seed": seed, "kind": "download_unreadable", "tree": tree, "deny": rnd.choice(sorted(flat)), "srcname": "src", "dest": "", "write_into": rnd.random() < 0.5, "cwd": "/", "block": 64, "no_mlsx": rnd.random() < 0.3}
 
 
+class ShortReadMemoryPathIO(aioftp.MemoryPathIO):
+    """local side of the client: read() returns "some data" - here at most 5 bytes at a time (a
+    backend is free to do that: chunked storage, pipes, unbuffered files)"""
+
+    @aioftp.pathio.universal_exception
+    async def read(self, file, block_size=-1):
+        if block_size is None or block_size < 0 or block_size > 5:
+            block_size = 5
+        return await super().read(file, block_size)
+
+
 class NoMlsxServer(aioftp.Server):
     def __init__(self, *a, **kw):
         super().__init__(*a, **kw)
@@ -226,7 +237,9 @@ def run_case(case):
         server = cls([user], path_io_factory=spy, block_size=64, wait_future_timeout=20.0)
         world.server = server
         world.backend_cls = spy
-        client = aioftp.Client(path_io_factory=aioftp.MemoryPathIO)
+        short = (case["seed"] % 3 == 0)
+        world.fsctl.short_reads = short  # the server's backend reads short as well
+        client = aioftp.Client(path_io_factory=ShortReadMemoryPathIO if short else aioftp.MemoryPathIO)
         kind = case["kind"]
         cwd = case["cwd"]
         subject = f"{kind}:{'write_into' if case['write_into'] else 'default'}:{'list-fallback' if case.get('no_mlsx') else 'mlsd'}"
@@ -456,7 +469,7 @@ def run_case(case):
             "events": world.net.seq,
             "steps": world.loop.steps,
             "outcome": world.outcome,
-            "counters": {f"kind.{kind}": 1, "probe.operations_in_one_connection_sequences": info.get("seq_ops", 0), "probe.download_refused_for_unreadable_entry": int(info.get("returned") is False), "probe.stat_probes_in_sequences": info.get("probes", 0), "faults.backend_call_failed_during_operation": len(world.fsctl.faults_fired), "probe.operation_raised_under_fault": int("refused_under_fault" in info)},
+            "counters": {f"kind.{kind}": 1, "probe.operations_in_one_connection_sequences": info.get("seq_ops", 0), "probe.download_refused_for_unreadable_entry": int(info.get("returned") is False), "probe.stat_probes_in_sequences": info.get("probes", 0), "faults.backend_call_failed_during_operation": len(world.fsctl.faults_fired), "probe.backends_with_short_reads": int(short), "probe.operation_raised_under_fault": int("refused_under_fault" in info)},
             "groups": {"dest": {case["dest"] or "''": 1}, "cwd": {cwd: 1}},
             "violations": out,
         }
